@@ -53,6 +53,7 @@ def oracle_v2(E, meta, sizes, P, shape, tag="C02", names=None):
     if not E.check(isinstance(layers, dict), tag + ".layers.present"):
         return leaves
     expected_layers = 0
+    seen_roots = []
     for rel in rels:
         leaf = leaves.get(rel)
         if leaf is None:
@@ -65,7 +66,9 @@ def oracle_v2(E, meta, sizes, P, shape, tag="C02", names=None):
         root, layer, npieces = v2_reference(E, content_of(shape, rel, sizes, names), P, tag)
         E.check(leaf.get("pieces root") == root, tag + ".root", "pieces root of %r differs from BEP 52 reference" % rel)
         if tb(s > P):
-            expected_layers += 1
+            if not any(r0 == root for r0 in seen_roots):      # identical files share one entry (same pieces root)
+                seen_roots.append(root)
+                expected_layers += 1
             got = None
             for k, v in layers.items():
                 if k == root:
